@@ -492,6 +492,23 @@ Proof.
   destruct hiertree_recase_nonvacuous as (A1 & A2 & A3 & _ & A5 & A6 & _ & A8). conj_split; assumption.
 Qed.
 
+(* the finding hier-after-dot-own-class-spelling (checks/c17.py tree_recase stage): for the right operand of a dot,
+   prepareTypeHierarchy compares the left operand's class with the class being annotated by EXACT spelling and then
+   looks the member up from the nearest table (same spelling) resp. the class's table by the index (other spelling);
+   the two branches do not reach the same symbol when a local of the method has the member's name.  The model
+   classifies that position Outside for both spellings (so C17_tree_hiertree says nothing about it) *)
+Theorem C17_tree_hier_after_dot_branches_refuted :
+  ref_sim hd_own hd_other /\ hd_own <> hd_other /\
+  match chain_for hd_own (descend (mkPos 4 9) hd_own) with
+  | Some ch =>
+      option_map (fun h => a_kind (snd h)) (lookup ch (s2l "GetLink")) = Some KVariable /\
+      option_map (fun h => a_kind (snd h)) (lookup (class_level_t ch) (s2l "GetLink")) = Some KFunc
+  | None => False
+  end /\
+  prepare [(s2l "aBeta", hd_own)] (s2l "aBeta", hd_own) (mkPos 4 9) = Outside /\
+  prepare [(s2l "aBeta", hd_other)] (s2l "aBeta", hd_other) (mkPos 4 9) = Outside.
+Proof. exact hier_after_dot_branches_refuted. Qed.
+
 Print Assumptions C17_keyword.
 Print Assumptions C17_lexer.
 Print Assumptions C17_lexer_mask.
@@ -540,3 +557,4 @@ Print Assumptions C17_tree_annot_nonvacuous.
 Print Assumptions C17_tree_report_nonvacuous.
 Print Assumptions C17_tree_deftree_nonvacuous.
 Print Assumptions C17_tree_hiertree_nonvacuous.
+Print Assumptions C17_tree_hier_after_dot_branches_refuted.
